@@ -3,6 +3,7 @@ import importlib
 
 PROPS = {
     "C09": "sim.props.c09",
+    "C10": "sim.props.c10",
     "C11": "sim.props.c11",
     "C23": "sim.props.c23",
     "C28": "sim.props.c28",
